@@ -1211,7 +1211,7 @@ func TokenExpiryScenario(in time.Duration) []Cmd {
 // before or after, and removals of each. The derived table must not depend on that order.
 func GatewayOrderScenario(r *core.Rand) []Cmd {
 	out := VIPPrelude()
-	names := []string{"web", "ext"}
+	names := []string{"web", "ext", "Web2"}
 	cfg := func(op structs.ConfigEntryOp, e structs.ConfigEntry) {
 		if err := e.Normalize(); err != nil {
 			return
